@@ -32,6 +32,8 @@ type codec struct {
 	// behind the last byte it consumed (-1: the decoder takes a whole byte slice, no position)
 	enc func(p reflect.Value) ([]byte, error)
 	dec func(buf []byte, off int) (p reflect.Value, end int, err error)
+	// decInto runs the real decoder with p (*T, in whatever state it is) as the receiver
+	decInto func(p reflect.Value, buf []byte, off int) (end int, err error)
 
 	fix     func(p any)                            // establish record invariants on a generated value
 	baseFix func(p any)                            // applied to the typical vector before deviations
@@ -58,6 +60,11 @@ func add(c *codec, opts []func(*codec)) {
 	for _, o := range opts {
 		o(c)
 	}
+	c.dec = func(buf []byte, off int) (reflect.Value, int, error) {
+		p := reflect.New(c.typ) // fresh zero value
+		end, err := c.decInto(p, buf, off)
+		return p, end, err
+	}
 	if table[c.name] != nil {
 		panic("duplicate table entry " + c.name)
 	}
@@ -77,12 +84,11 @@ func std[T any, P interface {
 			P(p.Interface().(*T)).Serialization(sink)
 			return sink.Bytes(), nil
 		},
-		dec: func(buf []byte, off int) (reflect.Value, int, error) {
-			x := new(T)
+		decInto: func(p reflect.Value, buf []byte, off int) (int, error) {
 			src := common.NewZeroCopySource(buf)
 			src.Skip(uint64(off))
-			err := P(x).Deserialization(src)
-			return reflect.ValueOf(x), int(src.Pos()), err
+			err := P(p.Interface().(*T)).Deserialization(src)
+			return int(src.Pos()), err
 		}}, opts)
 }
 
@@ -98,12 +104,11 @@ func stdE[T any, P interface {
 			err := P(p.Interface().(*T)).Serialization(sink)
 			return sink.Bytes(), err
 		},
-		dec: func(buf []byte, off int) (reflect.Value, int, error) {
-			x := new(T)
+		decInto: func(p reflect.Value, buf []byte, off int) (int, error) {
 			src := common.NewZeroCopySource(buf)
 			src.Skip(uint64(off))
-			err := P(x).Deserialization(src)
-			return reflect.ValueOf(x), int(src.Pos()), err
+			err := P(p.Interface().(*T)).Deserialization(src)
+			return int(src.Pos()), err
 		}}, opts)
 }
 
@@ -145,10 +150,8 @@ func buildTable() {
 		enc: func(p reflect.Value) ([]byte, error) {
 			return p.Interface().(*ccmcom.MakeTxParamWithSender).Serialization()
 		},
-		dec: func(buf []byte, off int) (reflect.Value, int, error) {
-			x := new(ccmcom.MakeTxParamWithSender)
-			err := x.Deserialization(buf[off:])
-			return reflect.ValueOf(x), -1, err
+		decInto: func(p reflect.Value, buf []byte, off int) (int, error) {
+			return -1, p.Interface().(*ccmcom.MakeTxParamWithSender).Deserialization(buf[off:])
 		}}, nil)
 	// --- header_sync/common/param.go
 	std[hscom.SyncGenesisHeaderParam](hsc)
@@ -240,11 +243,10 @@ func buildTable() {
 			err := p.Interface().(*cstates.StorageItem).Serialize(&bb)
 			return bb.Bytes(), err
 		},
-		dec: func(buf []byte, off int) (reflect.Value, int, error) {
-			x := new(cstates.StorageItem)
+		decInto: func(p reflect.Value, buf []byte, off int) (int, error) {
 			rd := bytes.NewReader(buf[off:])
-			err := x.Deserialize(rd)
-			return reflect.ValueOf(x), len(buf) - rd.Len(), err
+			err := p.Interface().(*cstates.StorageItem).Deserialize(rd)
+			return len(buf) - rd.Len(), err
 		}}, nil)
 	// --- included beyond the anchor list because they carry maps / sorted lists of the same kind
 	std[ripple.MultisignInfo](rip)
@@ -293,6 +295,27 @@ func (c *codec) values(pairs bool) []reflect.Value {
 		for _, x := range c.extra() {
 			out = append(out, reflect.ValueOf(x))
 		}
+	}
+	return out
+}
+
+// alts: instances built to collide with / differ from the typical vector: other values in every field; maps with an
+// overlapping key set (one shared key, different value) and with a disjoint key set.
+func (c *codec) alts() []reflect.Value {
+	var out []reflect.Value
+	for _, a := range []struct{ salt, keyOff, n int }{{2, 2, 3}, {3, 3, 2}} {
+		genKeyOffset, genMapN = a.keyOff, a.n
+		v := deepCopy(typical(c.typ, a.salt))
+		genKeyOffset, genMapN = 0, 3
+		p := reflect.New(c.typ)
+		p.Elem().Set(v)
+		if c.baseFix != nil {
+			c.baseFix(p.Interface())
+		}
+		if c.fix != nil {
+			c.fix(p.Interface())
+		}
+		out = append(out, p)
 	}
 	return out
 }
